@@ -111,6 +111,8 @@ def book_absorb(repo: Repo) -> List[Ob]:
     obs: List[Ob] = []
     P = ("C13", "C02")
     fi = repo.func("CompositeEnvelope.combine")
+    from ..types import Typer
+    typer = Typer(repo, fi)
     k = 0
     for n in walk_no_nested(fi.node):
         if isinstance(n, ast.Assign) and isinstance(n.value, ast.Call) and call_np(n.value) == "kron" and len(n.value.args) == 2:
@@ -123,11 +125,12 @@ def book_absorb(repo: Repo) -> List[Ob]:
             cands += list(parent or [])
             k += 1
             released = False
+            is_ps = typer.classes(ast.parse(owner, mode="eval").body) == {"ProductState"}
             for s in cands:
                 for x in [s] + list(walk_no_nested(s)):
                     if isinstance(x, ast.Assign):
                         t = src(x.targets[0])
-                        if owner in ("product_state", "ps", "p") or owner.endswith("product_state"):
+                        if is_ps:
                             if t == f"{owner}.state_objs" and isinstance(x.value, ast.List) and not x.value.elts:
                                 released = True
                         elif t == f"{owner}.state" and isinstance(x.value, ast.Constant) and x.value.value is None:
@@ -211,13 +214,15 @@ def deleg_order(repo: Repo) -> List[Ob]:
         va = fi.node.args.vararg.arg if fi.node.args.vararg else None
         if va is None:
             raise AnalysisError(f"DELEG-ORDER: CompositeEnvelope.{meth} has no varargs")
+        from ..types import Typer
+        typer = Typer(repo, fi)
         k = 0
         for x in walk_no_nested(fi.node):
             mc = method_call(x)
             if not mc:
                 continue
             recv, m = src(mc[0]), mc[1]
-            if m == meth and recv in ("ps", "product_states[0]", "new_ps") or (m == "reorder" and recv == "self"):
+            if (m == meth and recv != "self" and typer.classes(mc[0]) == {"ProductState"}) or (m == "reorder" and recv == "self"):
                 k += 1
                 n += 1
                 star = [a for a in x.args if isinstance(a, ast.Starred)]
